@@ -34,32 +34,37 @@ def handleC08 (op : String) (input impl : Json) : Except String Json := do
     -- `tableMissing` lists table numbers whose object is absent (commits may share a table)
     let full : Full := fun c => !missing.contains (tableOf c)
     let walkFuel := 400000
+    -- `retry`: the session goes on with the same finder after a refused request; the refused round
+    -- changes nothing and is reported by its index
+    let retry := (fldD input "retry" (Json.bool false)).getBool?.toOption.getD false
     -- model: run the rounds
-    let rec go (f : Finder) (rs : List Round) (acks : List (List Nat)) (acceptedW : List Nat) : Res (Finder × List (List Nat) × List Nat) :=
+    let rec go (f : Finder) (rs : List Round) (k : Nat) (acks : List (List Nat)) (refused : List Nat) : Res (Finder × List (List Nat) × List Nat) :=
       match rs with
-      | [] => .ok (f, acks.reverse, acceptedW)
+      | [] => .ok (f, acks.reverse, refused.reverse)
       | r :: rest =>
         match Finder.process Facts.finderRevisitsWithinDepth g full tieSort sortNats depth walkFuel refs f r.wants r.haves r.done with
-        | .ok (a, f') => go f' rest (a :: acks) (acceptedW ++ r.wants)
-        | .err e => .err e
+        | .ok (a, f') => go f' rest (k + 1) (a :: acks) refused
+        | .err e => if retry && e == "unrecognized-wants" then go f rest (k + 1) ([] :: acks) (k :: refused) else .err e
         | .panic p => .panic p
-    let m : Res Json := match go Finder.init rounds [] [] with
-      | .ok (f, acks, _) =>
+    let m : Res Json := match go Finder.init rounds 0 [] [] with
+      | .ok (f, acks, refused) =>
         match Finder.finish Facts.finderRevisitsWithinDepth g sortNats depth walkFuel f with
         | .ok (sent, tabs, f') =>
           .ok (Json.mkObj [("acks", Json.arr (acks.map (fun a => jNats (sortNats a))).toArray),
                            ("sentSet", jNats (sortNats sent.eraseDups)),
                            ("tables", jNats (sortNats (tabs.map tableOf).eraseDups)),
-                           ("commons", jNats (sortNats f'.commons))])
+                           ("commons", jNats (sortNats f'.commons)),
+                           ("refused", jNats refused)])
         | .err e => .err e
         | .panic p => .panic p
       | .err e => .err e
       | .panic p => .panic p
     let mj := jRes id m
-    -- which wants are legitimate: reachable from a ref and with their table present
+    -- which requests are legitimate: every want reachable from a ref (of any namespace) and with its
+    -- table present
     let reachable := ancestorsOfAll g refs
-    let allWants := (rounds.flatMap (·.wants)).eraseDups
-    let wantsOk := allWants.all (fun w => reachable.contains w && full w)
+    let roundOk := fun (r : Round) => r.wants.all (fun w => reachable.contains w && full w)
+    let wantsOk := rounds.all roundOk
     if resClass impl == "panic" then return reply mj false ["no-panic"]
     if resClass impl == "err" then
       let kind := (fldD impl "kind" Json.null).compress
@@ -71,14 +76,25 @@ def handleC08 (op : String) (input impl : Json) : Except String Json := do
     let sent ← asNatList (fldD v "sent" (Json.arr #[]))
     let tables ← asNatList (fldD v "tables" (Json.arr #[]))
     let commons ← asNatList (fldD v "commons" (Json.arr #[]))
+    let irefused ← asNatList (fldD v "refused" (Json.arr #[]))
     let iacks ← (← asArr (fldD v "acks" (Json.arr #[]))).mapM asNatList
-    let scen : FinderScenario := { g := g, tableOf := tableOf, depth := depth, wants := allWants, commons := commons }
-    let viol := (if wantsOk then [] else ["unreachable-wants-refused"]) ++ finderVerdict scen sent tables
+    -- the wants the implementation accepted: those of the rounds it did not refuse. Everything sent
+    -- must be justified by them alone; a refused want justifies nothing, in whatever round it came.
+    let indexed := rounds.zip (List.range rounds.length)
+    let acceptedRounds := (indexed.filter (fun (_, k) => !irefused.contains k)).map (·.1)
+    let refusedRounds := (indexed.filter (fun (_, k) => irefused.contains k)).map (·.1)
+    let acceptedWants := (acceptedRounds.flatMap (·.wants)).eraseDups
+    let scen : FinderScenario := { g := g, tableOf := tableOf, depth := depth, wants := acceptedWants, commons := commons }
+    let viol := (if acceptedRounds.all roundOk then [] else ["unreachable-wants-refused"]) ++
+      (if refusedRounds.all (fun r => !roundOk r) then [] else ["reachable-wants-accepted"]) ++
+      (if (indexed.filter (fun (_, k) => irefused.contains k)).all (fun (_, k) => (iacks.getD k []).isEmpty) then [] else ["refused-request-acknowledges-nothing"]) ++
+      finderVerdict scen sent tables
     let agree := match m with
       | .ok mv =>
         (fldD mv "acks" Json.null).compress == (Json.arr (iacks.map (fun a => jNats (sortNats a))).toArray).compress &&
         (fldD mv "sentSet" Json.null).compress == (jNats (sortNats sent.eraseDups)).compress &&
-        (fldD mv "commons" Json.null).compress == (jNats (sortNats commons)).compress
+        (fldD mv "commons" Json.null).compress == (jNats (sortNats commons)).compress &&
+        (fldD mv "refused" Json.null).compress == (jNats irefused).compress
       | _ => false
     return reply mj agree viol
   | _ => throw s!"unknown op {op}"
